@@ -150,6 +150,14 @@ def cases(tier, seed):
                 'scale': scale, 'state': state, 'defaults': i % 5 == 0, 'sub': int(rng.integers(1 << 30)),
                 'env': 'f64' if i % 4 != 3 else 'f32',
                 'cost': 2.0 + layers * gcfg['M'] * gcfg['nlat'] * gcfg['nlon'] / 3e4})
+  # edges of the admissible forcing parameters (rates may vanish: frictionless, no boundary-layer
+  # enhancement, no relaxation; no vertical / meridional contrast)
+  for j, edge in enumerate(('kf0', 'ka_eq_ks', 'ka0_ks0', 'dThz0_dTy0', 'sigma_b_tiny')):
+    gcfg = hg[j % len(hg)]
+    out.append({'id': f'hs-edge-{edge}-{gen.grid_tag(gcfg)}', 'kind': 'hs', 'grid': gcfg, 'layers': 5,
+                'scale': None if j % 2 == 0 else 'atmospheric', 'state': 'random', 'defaults': False,
+                'edge': edge, 'sub': 1000 + j, 'env': 'f64',
+                'cost': 2.0 + 5 * gcfg['M'] * gcfg['nlat'] * gcfg['nlon'] / 3e4})
   return out
 
 
@@ -416,6 +424,21 @@ def _run_hs(case, M):
                ks=1 / (float(rng.uniform(1, 10) if rng.random() < 0.8 else rng.uniform(80, 200)) * u.day),
                minT=float(rng.uniform(150, 230)) * u.degK, maxT=float(rng.uniform(290, 340)) * u.degK,
                dTy=float(rng.uniform(20, 90)) * u.degK, dThz=float(rng.uniform(0, 25)) * u.degK)
+  edge = case.get('edge')
+  if edge == 'kf0':
+    par['kf'] = 0.0 / u.day
+  elif edge == 'ka_eq_ks':
+    par['ks'] = par['ka']
+  elif edge == 'ka0_ks0':
+    par['ka'] = 0.0 / u.day
+    par['ks'] = 0.0 / u.day
+  elif edge == 'dThz0_dTy0':
+    par['dThz'] = 0.0 * u.degK
+    par['dTy'] = 0.0 * u.degK
+  elif edge == 'sigma_b_tiny':
+    par['sigma_b'] = 0.02
+  if edge:
+    M.cover('hs_parameter_edge', edge)
   sigma_b = par.get('sigma_b', 0.7)
   # uneven levels straddling sigma_b (when there are >= 2 layers one boundary is put close to it)
   bnd = gen.sigma_boundaries(rng, layers, uneven=rng.random() < 0.85)
